@@ -109,7 +109,9 @@ PAIRS = {
     "addl_items": ("b: bool, c: bool", [], "Element(items=[Integer()], additionalItems=b)", "Element(items=[Integer()], additionalItems=c)", "List[int]", ["len(v) <= 2"], "thorough"),
     "int_vs_number": ("m: int, n: int", [], "Integer(minimum=m)", "Number(minimum=n)", "Union[int, bool]", [], "quick"),
     "anyof_vs_oneof": ("m: int, n: int", [], "AnyOf(Integer(minimum=m), Integer(maximum=n))", "OneOf(Integer(minimum=m), Integer(maximum=n))", "Union[int, bool]", [], "quick"),
-    "anyof_order": ("m: int, n: int", [], "AnyOf(Integer(minimum=m), String())", "AnyOf(String(), Integer(minimum=n))", SV, SVPRE, "thorough"),
+    "anyof_order": ("m: int, n: int", [], "AnyOf(Integer(minimum=m), String())", "AnyOf(String(), Integer(minimum=n))", SV, SVPRE, "quick"),
+    "comp_branch_multiset": ("a: bool, b: bool, c: bool, k: int", ["0 <= k < 3"], "(AnyOf, OneOf, AllOf)[concretize_int(k, 0, 2)](Integer(), (Integer() if a else String()), String())", "(AnyOf, OneOf, AllOf)[concretize_int(k, 0, 2)](Integer(), (Integer() if b else String()), (Boolean() if c else String()))", SV, SVPRE, "quick"),
+    "comp_branch_permutation": ("p: int, m: int, k: int", ["0 <= p < 6", "0 <= k < 3"], "(AnyOf, OneOf, AllOf)[concretize_int(k, 0, 2)](Integer(minimum=m), Number(), Element(maximum=m))", "(AnyOf, OneOf, AllOf)[concretize_int(k, 0, 2)](*[(Integer(minimum=m), Number(), Element(maximum=m))[i] for i in ((0, 1, 2), (0, 2, 1), (1, 0, 2), (1, 2, 0), (2, 0, 1), (2, 1, 0))[concretize_int(p, 0, 5)]])", "Union[int, bool]", [], "quick"),
     "element_vs_nothing": ("b: bool", [], "Element()", "(Element() if b else Nothing())", SV, SVPRE, "quick"),
     "not": ("m: int, n: int", [], "Not(Integer(minimum=m))", "Not(Integer(minimum=n))", SV, SVPRE, "thorough"),
     "array_items": ("m: int, n: int", [], "Array(Integer(minimum=m))", "Array(Integer(minimum=n), minItems=0)", "List[int]", ["len(v) <= 2"], "thorough"),
